@@ -271,6 +271,12 @@ class IkeSa(object):
                            ''.format(self.peer_msg_id, message.message_id))
             return None
 
+        # a request of the peer can overtake the response of the initial exchanges we are still waiting for.
+        # Omit it (the peer retransmits it) instead of failing and closing the IKE_SA
+        if self.state in (IkeSa.State.INIT_REQ_SENT, IkeSa.State.AUTH_REQ_SENT):
+            self.log_warning('Request received before the initial exchanges were completed. Omitting.')
+            return None
+
         try:
             handler = _handler_dict[message.exchange_type]
         except KeyError:
